@@ -206,7 +206,12 @@ def features(hy, tree):
     f["aug_bad_target"] = any(_head(hy, n) in aug and len(n) >= 2 and
                               (isinstance(n[1], (m.List, m.Tuple)) or _head(hy, n[1]) == "unpack-iterable") for n in nodes)
     f["chainc_single"] = any(_head(hy, n) == "chainc" and len(n) == 2 for n in nodes)
-    f["short_or_pattern"] = any(_head(hy, n) == "|" and len(n) <= 2 for n in nodes) and any(_head(hy, n) == "match" for n in nodes)
+    def n_alternatives(n):
+        kids = list(n)[1:]
+        n_as = sum(1 for c in kids if isinstance(c, m.Keyword) and c.name == "as")
+        return len(kids) - 2 * n_as
+    f["short_or_pattern"] = any(_head(hy, n) == "|" and n_alternatives(n) <= 1 for n in nodes) \
+        and any(_head(hy, n) == "match" for n in nodes)
     f["import_empty_list"] = any(_head(hy, n) == "import" and any(isinstance(c, m.List) and len(c) == 0 for c in n) for n in nodes)
 
     def bad_ann_target(x):
